@@ -203,6 +203,12 @@ def run(run, ix, tier):
     check_rs(run, ix)
     check_keyed_store_precision(run, ix)
     check_derived_with_key(run, ix)
+    run.rule('D-R1h', floor=2, desc='cache keys made of user values carry their types')
+    run.rule('D-R1i', floor=1, desc='a parameter that guards a partially keyed cache is canonicalised under the guard')
+    run.rule('D-LU3', floor=1, desc='cached LU factors only when overwrite is off')
+    check_value_key_types(run, ix)
+    check_guarded_partial_key(run, ix)
+    check_lu_overwrite(run, ix)
     check_memoize_hit(run, ix)
     check_call_local_rules(run, ix)
     check_partial_stores(run, ix)
@@ -1313,6 +1319,109 @@ def check_call_local_rules(run, ix):
                                  'them under the outer call' % norm(v, 40), line=x.lineno))
     if not n:
         raise AnalysisError('invertlaplace: rule selection not found')
+
+
+VALUE_KEYS = [
+    # (file, function, container(s), the key parts that are user values)
+    ('mpmath/calculus/quadrature.py', 'QuadratureRule.get_nodes', ('self.transformed_cache', 'self.interval_count'), ('a', 'b')),
+]
+
+
+def check_value_key_types(run, ix):
+    """D-R1h.  A cache key made of user VALUES identifies the computation only together with their types: 0 == 0j,
+    3 == mpf(3) == 3.0 and their hashes agree, but the nodes for complex end points are complex and the value of a
+    memoized function for an int argument is not its value for an mpf argument.  Decided: the key of the
+    transformed-node cache contains type(a) and type(b) next to a and b; the memoize key contains the types of
+    all positional and keyword argument values."""
+    for rel, qn, conts, vals in VALUE_KEYS:
+        f = ix.func(rel, qn)
+        keydefs = [x for x in _walk_own(f.node) if isinstance(x, ast.Assign) and isinstance(x.targets[0], ast.Name)
+                   and isinstance(x.value, ast.Tuple) and
+                   all(any(norm(e) == v for e in x.value.elts) for v in vals)]
+        if not keydefs:
+            raise AnalysisError('%s: key of %s not found' % (qn, conts[0]))
+        for kd in keydefs:
+            have = [norm(e) for e in kd.value.elts]
+            missing = [v for v in vals if 'type(%s)' % v not in have]
+            used = [c for c in _walk_own(f.node) if isinstance(c, ast.Subscript) and norm(c.value) in conts and
+                    norm(c.slice) == kd.targets[0].id]
+            if not used:
+                continue
+            if missing:
+                run.fail(Finding('D-R1h', rel, qn, norm(kd),
+                                 'the cache key holds the user value%s %s without %s: values of different types that '
+                                 'compare equal (0 and 0j) share an entry, and the entry computed for one type is '
+                                 'served for the other (quad(f, [0, 1]) after quad(g, [0j, 1+0j]) received complex '
+                                 'nodes)' % ('s' if len(missing) > 1 else '', ', '.join(missing),
+                                             ', '.join('type(%s)' % v for v in missing)), line=kd.lineno))
+            else:
+                run.ok('D-R1h', '%s: key `%s` carries the types of %s' % (qn, norm(kd.value, 60), ', '.join(vals)))
+    # memoize
+    f = ix.func('mpmath/ctx_base.py', 'StandardBaseContext.memoize.f_cached')
+    keyassigns = [x for x in _walk_own(f.node) if isinstance(x, ast.Assign) and
+                  isinstance(x.targets[0], ast.Name) and x.targets[0].id == 'key']
+    final = max(keyassigns, key=lambda x: x.lineno)
+    txt = norm(final.value, 300).replace(' ', '')
+    need = ['type(v)forvin%s' % f.vararg, 'type(v)forvin%s.values()' % f.kwarg]
+    look = [c for c in _walk_own(f.node) if isinstance(c, ast.Compare) and norm(c.left) == 'key' and
+            c.lineno > final.lineno]
+    if all(n_ in txt for n_ in need) and 'key' in [n_.id for n_ in ast.walk(final.value) if isinstance(n_, ast.Name)] \
+            and look:
+        run.ok('D-R1h', 'memoize: the key is extended by the types of the positional and keyword argument values '
+               'before the lookup')
+    else:
+        run.fail(Finding('D-R1h', f.file, f.qualname, norm(final),
+                         'the memoize key holds the argument values without their types: 3 and mpf(3) (0 and 0j) share '
+                         'an entry, and h(mpf(3)) at 100 bits is served the 53-bit float computed for h(3)',
+                         line=final.lineno))
+
+
+def check_guarded_partial_key(run, ix):
+    """D-R1i.  stieltjes caches (precision, value) under n alone, for the default second argument: lookup and store are
+    guarded by `a == 1`.  The guard also holds for objects that are equal to 1 but not 1 (mpc(1, 0)), and the value
+    computed from such an `a` has its type.  Decided: inside the guard the parameter is replaced by the canonical
+    constant before anything is computed from it, so that what is stored under n does not depend on which equal
+    object was passed."""
+    f = ix.func('mpmath/functions/zeta.py', 'stieltjes')
+    stores = [x for x in _walk_own(f.node) if isinstance(x, ast.Assign) and isinstance(x.targets[0], ast.Subscript)
+              and norm(x.targets[0].value) == 'stieltjes_cache']
+    if not stores:
+        raise AnalysisError('stieltjes: cache store not found')
+    par = f.params[2]
+    guards = [x for x in f.node.body if isinstance(x, ast.If) and norm(x.test) == '%s == 1' % par]
+    canon = [a for g in guards for a in g.body if isinstance(a, ast.Assign) and norm(a.targets[0]) == par and
+             norm(a.value) in ('ctx.one', '1', 'ctx.mpf(1)')]
+    firstuse = min([x.lineno for x in _walk_own(f.node) if isinstance(x, ast.Name) and x.id == par and
+                    isinstance(x.ctx, ast.Load) and not any(x in list(ast.walk(g.test)) for g in guards)
+                    and x.lineno > (guards[0].lineno if guards else 0)] or [0])
+    if canon and canon[0].lineno <= firstuse:
+        run.ok('D-R1i', 'stieltjes: under `%s == 1` the argument is replaced by the canonical 1 before it is used' % par)
+    else:
+        run.fail(Finding('D-R1i', f.file, f.qualname, norm(stores[0]),
+                         'the value stored under n is computed from whatever object satisfied `%s == 1`: after '
+                         'stieltjes(2, 1+0j) the complex-typed value is returned for stieltjes(2)' % par,
+                         line=stores[0].lineno))
+
+
+def check_lu_overwrite(run, ix):
+    """D-LU3.  LU_decomp(A, overwrite=True) is documented to leave the factors in A; the cached factors may be
+    returned only when overwrite is off (otherwise the in-place effect depends on an earlier call)."""
+    f = ix.func('mpmath/matrices/linalg.py', 'LinearAlgebraMethods.LU_decomp')
+    if 'overwrite' not in f.params:
+        raise AnalysisError('LU_decomp lost its overwrite parameter')
+    hits = [x for x in _walk_own(f.node) if isinstance(x, ast.If) and '._LU' in norm(x.test) and
+            any(isinstance(r, ast.Return) for r in x.body)]
+    if not hits:
+        raise AnalysisError('LU_decomp: cache-hit branch not found')
+    for h in hits:
+        cs = [norm(c) for c in conjuncts(h.test)]
+        if 'not overwrite' in cs:
+            run.ok('D-LU3', 'cached factors are returned only when overwrite is off')
+        else:
+            run.fail(Finding('D-LU3', f.file, f.qualname, 'if %s' % norm(h.test, 120),
+                             'the cached factors are returned without looking at `overwrite`: after an earlier lu(A), '
+                             'LU_decomp(A, overwrite=True) leaves A unchanged although it is documented to receive the '
+                             'factors', line=h.lineno))
 
 
 def check_rs(run, ix):
